@@ -192,6 +192,22 @@ func c08Config(rep *verifkit.Report, rng *rand.Rand, up *sysUpstream, ci int) {
 			return
 		}
 	}
+	// Updates that the program must refuse (the new identifiers contain the
+	// address of another client) and that would have cleared the ignore flags:
+	// a refused update changes nothing, so the clients stay ignored.
+	if ci%2 == 0 {
+		for _, c := range clients[:4] {
+			st, body, aerr := in.API("POST", "/control/clients/update", map[string]any{"name": c.Name, "data": map[string]any{
+				"name": c.Name, "ids": append(append([]string{}, c.IDs...), "127.0.3.20"), "use_global_settings": true, "use_global_blocked_services": true,
+				"tags": []string{}, "upstreams": []string{}, "ignore_querylog": false, "ignore_statistics": false}})
+			if aerr != nil || st == 200 {
+				rep.Inconcl(fmt.Sprintf("clients/update of %s with another client's address was not refused: %d %v %s", c.Name, st, aerr, body))
+
+				return
+			}
+			rep.Class("refused_updates_that_would_clear_ignore_flags")
+		}
+	}
 	if st, body, aerr := in.API("PUT", "/control/querylog/config/update", map[string]any{"enabled": true, "anonymize_client_ip": anonymize, "interval": 86400000, "ignored": qlogIgnore}); aerr != nil || st != 200 {
 		rep.Inconcl(fmt.Sprintf("querylog config: %d %v %s", st, aerr, body))
 
@@ -246,6 +262,11 @@ func c08Config(rep *verifkit.Report, rng *rand.Rand, up *sysUpstream, ci int) {
 	}
 	anonNow := anonymize
 	anonAfter := rng.Intn(3) != 0
+	if ci%5 == 2 {
+		// Some configurations always end without anonymisation, so that the
+		// late client-flag checks below take place in every run.
+		anonAfter = false
+	}
 	switchVia := []string{"PUT /control/querylog/config/update", "POST /control/querylog_config"}[rng.Intn(2)]
 	for qi := 0; qi < nQ; qi++ {
 		if qi == nQ/2 {
@@ -434,6 +455,19 @@ func c08Config(rep *verifkit.Report, rng *rand.Rand, up *sysUpstream, ci int) {
 		}
 	}
 
+	// And then anonymisation is switched on: the entries were stored with the
+	// full address while it was off, and the client is ignored now.
+	var apiLogClientLateAnon string
+	if apiLogClientLate != "" {
+		st, _, aerr := in.API("PUT", "/control/querylog/config/update", map[string]any{"enabled": true, "anonymize_client_ip": true, "interval": 86400000, "ignored": lateIgnored})
+		if aerr == nil && st == 200 {
+			_, b4, _ := in.API("GET", "/control/querylog?limit=100000", nil)
+			apiLogClientLateAnon = strings.ToLower(string(b4))
+			rep.Class("late_client_flag_checks_after_anonymisation_was_switched_on")
+		}
+		_, _, _ = in.API("PUT", "/control/querylog/config/update", map[string]any{"enabled": true, "anonymize_client_ip": anonAfter, "interval": 86400000, "ignored": lateIgnored})
+	}
+
 	// A name is put on the statistics ignore list WHILE queries for it are
 	// being served; once the update has returned and the traffic has stopped,
 	// further queries for that very name must not be counted any more.  The
@@ -605,6 +639,12 @@ func c08Config(rep *verifkit.Report, rng *rand.Rand, up *sysUpstream, ci int) {
 			}
 			if apiLogClientLate != "" && q == lateOwned && strings.Contains(apiLogClientLate, label) {
 				rep.Violate("now-ignored-client-still-returned", "the log API still returns an entry of a client that is flagged ignore_querylog now", w("GET /control/querylog after the client was flagged"))
+			}
+			if apiLogClientLateAnon != "" && q == lateOther && !strings.Contains(apiLogClientLateAnon, label) {
+				rep.Violate("entry-of-unflagged-client-hidden:after-anonymisation-was-switched-on", "after another client was flagged ignore_querylog and anonymisation was switched on the log API no longer returns an entry of a client that is not flagged", w("GET /control/querylog after the client was flagged and anonymisation switched on"))
+			}
+			if apiLogClientLateAnon != "" && q == lateOwned && strings.Contains(apiLogClientLateAnon, label) {
+				rep.Violate("now-ignored-client-still-returned:after-anonymisation-was-switched-on", "the log API returns an entry (stored with the full address) of a client that is flagged ignore_querylog now, after anonymisation was switched on", w("GET /control/querylog after the client was flagged and anonymisation switched on"))
 			}
 			if strings.Contains(strings.ToLower(q.Name), ".plain.verif.example") && strings.Contains(apiLogLate, label) {
 				rep.Violate("now-ignored-name-still-returned", "the log API still returns an entry whose name is on the ignore list now", w("GET /control/querylog after the list changed"))
